@@ -18,21 +18,28 @@ ASSUMPTIONS = ['reference model vlib/oracle.py', 'bitsets package behaves as doc
 
 
 def permuted_dict(d, rnd):
-    """A raw=True-legal permutation of a todict() result: lattice list (indexes remapped), inner sequences, rows."""
+    """A raw=True-legal permutation of a todict() result; the parts to permute are chosen independently."""
     lat = d['lattice']
     k = len(lat)
+    flags = [rnd.random() < .5 for _ in range(3)]
+    if not any(flags):
+        flags[rnd.randrange(3)] = True
+    p_lattice, p_neighbours, p_members = flags
     perm = list(range(k))
-    rnd.shuffle(perm)          # new position p holds old concept perm[p]
+    if p_lattice:
+        rnd.shuffle(perm)          # new position p holds old concept perm[p]
     newpos = {old: new for new, old in enumerate(perm)}
 
-    def sh(seq):
+    def sh(seq, on=True):
         seq = list(seq)
-        rnd.shuffle(seq)
+        if on:
+            rnd.shuffle(seq)
         return tuple(seq)
     out = dict(d)
-    out['context'] = [sh(row) for row in d['context']]
-    out['lattice'] = [(sh(lat[old][0]), sh(lat[old][1]),
-                       sh(newpos[u] for u in lat[old][2]), sh(newpos[l] for l in lat[old][3]))
+    out['context'] = [sh(row, p_members) for row in d['context']]
+    out['lattice'] = [(sh(lat[old][0], p_members), sh(lat[old][1], p_members),
+                       sh((newpos[u] for u in lat[old][2]), p_neighbours),
+                       sh((newpos[l] for l in lat[old][3]), p_neighbours))
                       for old in perm]
     return out
 
